@@ -248,6 +248,14 @@ def _mk_callable(rt, path, nd, entry):
         # a function returned by a FILE-DEFINED factory: same source text as its siblings, another captured value
         from . import closures
         kind, k = nd["closure"]
+        if k == "~newobj":
+            k = IR.Opaque()          # a fresh object per definition: default repr (with its address), no __eq__
+            k.path = "fid:" + nd["fid"]
+            assert shared and orig == ["x"] and entry == "call", nd
+            rt.nodes.setdefault("fid:" + nd["fid"], nd)
+            f = closures.make_closure_obj(rt, k)
+            rt.shared_funcs[nd["fid"]] = f
+            return f
         assert shared and orig == ["x"] and entry == "call", nd
         rt.nodes.setdefault("fid:" + nd["fid"], nd)
         f = (closures.make_closure if kind == "cell" else closures.make_default)(rt, "fid:" + nd["fid"], k)
